@@ -195,7 +195,7 @@ func ruleHTMLTable(r *core.Reporter) {
 	}
 	r.Analysed(ha, ho)
 	blocks := findBlocks(ha)
-	if !r.Floor("Find(…).Each blocks in HTMLAssets", len(blocks), 8) {
+	if !r.Floor("Find(…).Each blocks in HTMLAssets", len(blocks), 5) {
 		return
 	}
 	reqs := []htmlReq{
